@@ -191,7 +191,7 @@ def run(ctx):
                     ok = False
                     for n_ in ifs:
                         d = pathx.desc(n_["c"])
-                        if "Option::map_or(Glob::from(glob), True, closure)" in d or "map_or(" in d and "Glob::from" in d:
+                        if not d.startswith("Not ") and ("Option::map_or(Glob::from(glob), True, closure)" in d or "map_or(" in d and "Glob::from" in d):
                             cl = [c for c in facts.children(g) if "strip_prefix" in repr([strip_generics(t.callee.def_) for _, t in c.calls()])]
                             ok = bool(cl)
                     ctx.require(ok, "R03.4", "scope-recheck:" + name, "%s rejects on Match::Ignore only if the glob's source directory contains the path" % name,
